@@ -173,7 +173,7 @@ class C11(Check):
             "id/args/kwargs/user labels and _retries = 1,2,.. on re-sends, stored results sequence per model. "
             "Non-trivial: >=1 retry happened; distinct = distinct (kind, delivery) sequences.")
     floors = {"counters.tokens_checked": 1500, "counters.retries_observed": 800, "events.kick": 2000}
-    quick_cases = 2500
+    quick_cases = 4000
     thorough_cases = 80000
 
     def cases(self, rng: random.Random, tier: str, shard: int, nshards: int) -> Iterator[Any]:
